@@ -900,3 +900,57 @@ def resolve_to_root(facts, body, e, depth=4):
         else:
             return cur_b, cur
     return cur_b, cur
+
+
+def subst_upvars(facts, body, e, depth=3):
+    """rebuild an expression of a closure body with captured variables replaced by the captured expressions of the
+    enclosing body (recursively, bounded)"""
+    if depth == 0 or body.kind != 'Closure':
+        return e
+
+    def rec(x):
+        if x.kind == 'place' and x.root[0] == 'upvar':
+            pb, pe = upvar_expr(facts, body, x.root[1])
+            if pe is None:
+                return x
+            pe = subst_upvars(facts, pb, pe, depth - 1)
+            ps = pe
+            if x.fields:
+                s = pe.strip()
+                if s.kind == 'place':
+                    return E('place', root=s.root, fields=tuple(s.fields) + tuple(x.fields))
+                if s.kind in ('call', 'agg'):
+                    return E(s.kind, name=s.name, args=s.args, site=s.site, extra=s.extra,
+                             proj=tuple(s.proj) + tuple(x.fields))
+            return ps
+        if not x.args:
+            return x
+        return E(x.kind, name=x.name, args=[rec(a) if isinstance(a, E) else a for a in x.args], root=x.root,
+                 fields=x.fields, const=x.const, site=x.site, extra=x.extra, proj=x.proj)
+    return rec(e)
+
+
+def deep_calls(facts, body, *names):
+    """[(owner body, Call)] over a body and all closures nested in it"""
+    out = []
+    for b in [body] + all_closures(facts, body):
+        for c in b.find_calls(*names):
+            out.append((b, c))
+    return out
+
+
+def deep_arg(facts, owner, call, i):
+    """argument expression of a (possibly closure-nested) call, expressed in terms of the outermost body"""
+    return subst_upvars(facts, owner, ExprBuilder(owner).arg(call, i))
+
+
+def closure_of_adaptor(facts, root, owner):
+    """for a closure body `owner` nested in `root`: the adaptor call that received it (in its parent) and the E of that
+    call's result, or (None, None)"""
+    parent_path = norm(owner.d.get('parent', ''))
+    for pb in facts.get(parent_path):
+        for c in pb.find_calls():
+            for cb in closure_args_of_call(facts, pb, c):
+                if cb is owner:
+                    return pb, c
+    return None, None
